@@ -210,6 +210,7 @@ pub fn c09_sp(g: &mut Gen) {
             lines.push(format!("sp A it one : N{} l n b", a)); lines.push(format!("sp A it one : n B{} l n b", a));
         }
         for a in boundary_values(n - m) { lines.push(format!("sp A select0 {}", a)); lines.push(format!("sp A it sel0 {} : l n n", a)); }
+        for k in 1..=2u64 { if m >= k { let backs = vec!["b"; k as usize].join(" "); for x in [m - k, m - 1, m] { lines.push(format!("sp A it one : {} N{} l n b", backs, x)); } } }
         if n <= 1000 { for a in boundary_values(n) { if a <= 2000 { lines.push(format!("sp A it bits : N{} l n b", a)); } } }
         g.group(lines);
     }
